@@ -65,6 +65,9 @@ func (m pvMsg) tok() string {
 		if m.Entry == "key" {
 			entry = fmt.Sprintf("key %d", m.EntryPk)
 		}
+		if m.Entry == "own" {
+			entry = fmt.Sprintf("own %d", m.EntryPk)
+		}
 		if m.Short >= 0 {
 			return fmt.Sprintf("v3 short %d %s", m.Short, entry)
 		}
@@ -212,6 +215,9 @@ func (e *pvEnv) concretise(conn int, m pvMsg) []byte {
 					ce = refX25519Pub(e.eph(m.CE))
 				}
 				info := append(append(append([]byte{}, ce...), []byte(e.name(m.SigName))...), e.accKey(m.AccConn, m.AccBack)...)
+				if m.Signer == 98 { // the accessory's own long-term key (an adversary who read the storage directory has it)
+					return ed25519.Sign(ed25519.PrivateKey(e.f.device.PrivateKey()), info)
+				}
 				return ed25519.Sign(e.ident(m.Signer).Priv, info)
 			}
 			switch m.SigKind {
@@ -264,6 +270,9 @@ func (e *pvEnv) setEntry(m pvMsg) {
 		e.f.db.SaveEntity(db.NewEntity(name, nil, nil))
 	case "key":
 		e.f.db.SaveEntity(db.NewEntity(name, e.ident(m.EntryPk).Pub, nil))
+	case "own":
+		// the accessory's own entity, key pair included (name 0 is the accessory's id)
+		e.f.db.SaveEntity(db.NewEntity(name, e.f.device.PublicKey(), e.f.device.PrivateKey()))
 	}
 }
 
@@ -404,6 +413,12 @@ func genPvMsg(r *rand.Rand, conn, nconn int, e *int, started bool) pvMsg {
 	case 3:
 		return pvMsg{Kind: "v1", Good: false, N: r.Intn(5)}
 	case 4, 5, 6:
+		if name == 0 && r.Intn(2) == 0 {
+			// a finish that names the accessory itself, signed with the accessory's own long-term key: no controller
+			m := genuineV3(conn, *e, 0, 99)
+			m.Entry, m.Signer = "own", 98
+			return m
+		}
 		return genuineV3(conn, *e, name, pk)
 	case 7, 8, 9:
 		m := genuineV3(conn, *e, name, pk)
@@ -508,6 +523,8 @@ func pvCorpus() [][]pvStep {
 		{{0, start}, {0, g(func(m *pvMsg) { m.Intact = false })}, {0, genuineV3(0, 1, 0, 10)}},
 		{{0, start}, {0, pvMsg{Kind: "v3", Short: 7, Entry: "none"}}, {0, genuineV3(0, 1, 0, 10)}},
 		{{0, genuineV3(0, 1, 0, 10)}},
+		// F16: the accessory itself is no controller (a finish naming it, signed with its own long-term key)
+		{{0, start}, {0, g(func(m *pvMsg) { m.Name, m.SigName, m.Entry, m.EntryPk, m.Signer = 0, 0, "own", 99, 98 })}},
 		// F42: a second exchange with the SAME controller key on the connection; the recorded finish of the first one is
 		// sent again (sealed under, and signed over, the accessory key of the first exchange) — and the genuine one after it
 		{{0, start}, {0, genuineV3(0, 1, 0, 10)}, {0, start}, {0, g(func(m *pvMsg) { m.KBack, m.AccBack = 1, 1 })}},
